@@ -1,5 +1,5 @@
 (* C17 — theorems (statements are the *_stmt definitions of Proofs.v / ProofsAlloc.v). *)
-From C17 Require Import Model Proofs ProofsAlloc ProofsFrame.
+From C17 Require Import Model Proofs ProofsAlloc ProofsFrame ProofsRC.
 
 Theorem Inv_init : Inv_init_stmt.
 Proof. exact Inv_init_proof. Qed.
@@ -37,3 +37,21 @@ Print Assumptions Search_binary_smallest_class.
 Theorem Frame_others_unchanged_partial : Frame_stmt.
 Proof. exact Frame_proof. Qed.
 Print Assumptions Frame_others_unchanged_partial.
+
+(* GivMMFreeList: allocate / desallocate (of a handed-out block) / resize keep the free-list discipline PInv *)
+Theorem Pool_discipline_step : Pool_step_stmt.
+Proof. exact Pool_step_proof. Qed.
+Print Assumptions Pool_discipline_step.
+
+(* GivMMRefCount on pointer variables *)
+Theorem RC_invariant_step : RC_step_stmt.
+Proof. exact RC_step_proof. Qed.
+Print Assumptions RC_invariant_step.
+
+Theorem RC_invariant_run : RC_run_stmt.
+Proof. exact RC_run_proof. Qed.
+Print Assumptions RC_invariant_run.
+
+Theorem RC_count_is_sharers_and_free_iff_zero : RC_counts_stmt.
+Proof. exact RC_counts_proof. Qed.
+Print Assumptions RC_count_is_sharers_and_free_iff_zero.
